@@ -87,3 +87,7 @@ package maven
 // ---- qualifier spelling (C12): case-insensitive; a, b, m and cr are aliases; ga, final and release are the release itself
 //@ func normalizeQualifier
 //@   ensures aliases: result == (strings.ToLower(s) == "a" ? "alpha" : (strings.ToLower(s) == "b" ? "beta" : (strings.ToLower(s) == "m" ? "milestone" : (strings.ToLower(s) == "cr" ? "rc" : ((strings.ToLower(s) == "ga" || strings.ToLower(s) == "final" || strings.ToLower(s) == "release") ? "" : strings.ToLower(s))))))   [C12]
+
+// ---- the registered name (the VERS evaluator and the CLI select behaviour by it)
+//@ func (*Ecosystem).Name
+//@   ensures result == "maven"   [C04 C15 C17]
